@@ -21,7 +21,7 @@ func StressScenarios(prop string) []sched.Scenario {
 	if prop != "C08" {
 		return nil
 	}
-	return []sched.Scenario{{Name: "stress-4committers-8readers", Make: func() ([]func(), func() (string, string)) {
+	return []sched.Scenario{fullHistoryReaders(), {Name: "stress-4committers-8readers", Make: func() ([]func(), func() (string, string)) {
 		sc := statecache.NewStateCache()
 		mkBlock(sc, blk{hash: "G", prev: "", sets: map[string]string{"k": "G"}}).Commit()
 		var bodies []func()
@@ -244,5 +244,41 @@ func cancelledSaves() sched.Scenario {
 			}
 			return "", ""
 		}
+	}}
+}
+
+// fullHistoryReaders: the per-key history of k is FULL (a chain of 230 blocks rewriting k, capacity 200) when
+// readers look k up at blocks that hold no entry of their own (every such lookup memoises and thereby evicts)
+// while a further block commits. What is evicted is the open capacity finding's business; here only the race
+// detector is asked: bookkeeping that the lookups do on the way must be synchronised.
+func fullHistoryReaders() sched.Scenario {
+	return sched.Scenario{Name: "stress-readers-at-full-per-key-history", Make: func() ([]func(), func() (string, string)) {
+		sc := statecache.NewStateCache()
+		prev := ""
+		for i := 0; i < 230; i++ {
+			h := fmt.Sprintf("w%d", i)
+			mkBlock(sc, blk{hash: h, prev: prev, sets: map[string]string{"k": h}}).Commit()
+			prev = h
+		}
+		var tips []string
+		for i := 0; i < 4; i++ {
+			// blocks hanging off old and new writers that do not touch k
+			h := fmt.Sprintf("t%d", i)
+			mkBlock(sc, blk{hash: h, prev: fmt.Sprintf("w%d", 229-i*10), sets: map[string]string{"j": "x"}}).Commit()
+			tips = append(tips, h)
+		}
+		last := mkBlock(sc, blk{hash: "w230", prev: "w229", sets: map[string]string{"k": "w230"}})
+		var bodies []func()
+		for _, tip := range tips {
+			tip := tip
+			bodies = append(bodies, func() {
+				for i := 0; i < 30; i++ {
+					_, _ = sc.Get("k", tip)
+					_, _ = sc.Get("k", fmt.Sprintf("w%d", i))
+				}
+			})
+		}
+		bodies = append(bodies, func() { last.Commit() })
+		return bodies, func() (string, string) { return "", "" }
 	}}
 }
